@@ -10,7 +10,7 @@ PID = "C29"
 
 def build():
     out = os.path.join(BUILD, PID)
-    flags = ["-O1", "-g"] + SAN + REPO_INC + tfel_inc()
+    flags = ["-O1", "-g", "-DTFEL_VERIF"] + SAN + REPO_INC + tfel_inc()
     units = [(os.path.join(VERIF, "harness/C29/h29.cpp"), flags), (os.path.join(VERIF, "sim/vsim.cpp"), flags),
              (os.path.join(REPO, "src/System/ThreadPool.cxx"), flags), (os.path.join(REPO, "src/System/ThreadedTaskResult.cxx"), flags)]
     objs = compile_objects(out, units)
